@@ -46,6 +46,10 @@ var reviewedND = map[string][2]string{
 	"global-store:common.GetBlocksPerEpoch#0":                             {"config-constant", "lazy initialisation of a constant derived from configuration"},
 	"global-store:common.GetRefundBlocks#0":                               {"config-constant", "lazy initialisation of a constant derived from configuration"},
 	"global-store:common.GetRewardBlocks#0":                               {"config-constant", "lazy initialisation of a constant derived from configuration"},
+	"cache:core.blockChain.topBlocks":                 {"store-cache", "LRU in front of the height index; entries are removed when a block is removed (remove → topBlocks.Remove), so it answers as the store does; the read itself is reviewed in storeReads (calcDifficulty)"},
+	"cache:storage/account.AccountDB.accountObjects":  {"state-local", "per-AccountDB object cache: part of the state object being executed on, not shared between states"},
+	"cache:storage/account.storageDB.codeCache":       {"content-addressed", "contract code keyed by its hash: a hit and a miss return the same bytes"},
+	"cache:storage/account.storageDB.codeSizeCache":   {"content-addressed", "code size keyed by code hash"},
 	"clock:(*core.VMExecutor).Execute#0":                                  {"casting-only", "start time of block casting"},
 	"clock:(*core.VMExecutor).Execute#1":                                  {"casting-only", "casting time-out (the proposer's own packing limit; verifiers re-execute the packed list)"},
 	"clock:(*core.VMExecutor).Execute#2":                                  {"log-only", "elapsed time for the performance log"},
@@ -95,6 +99,13 @@ func c01Purity(c *eng.Ctx, r *eng.Report, cone *eng.Cone) {
 		}
 		for _, h := range eng.ScanNondeterminism(fn) {
 			key := fmt.Sprintf("%s:%s#%d", h.Kind, eng.FuncName(fn), h.Seq)
+			if h.Kind == "cache" {
+				// keyed by the cache object (struct field), not by call site
+				key = "cache:" + h.Recv
+				if seen[key] {
+					continue
+				}
+			}
 			seen[key] = true
 			pos := c.Pos(h.Pos)
 			rv, ok := reviewedND[key]
@@ -140,6 +151,11 @@ func classHolds(c *eng.Ctx, h eng.NDHit, class string) string {
 		}
 		if lp.StrConcat {
 			return "the loop concatenates strings in map order"
+		}
+		if class != "trie-order-independent" {
+			if m := lp.CarriedCond(); m != "" {
+				return "the loop body takes a " + m + ": what an iteration does depends on which entries were visited before it"
+			}
 		}
 		if len(lp.Appends) > 0 {
 			switch class {
